@@ -15,6 +15,9 @@ KNOWN = os.path.join(VERIF, "known_findings.json")
 
 QUICK = [("default", False), ("all", False), ("nodefault", False)]
 THOROUGH = QUICK + [("minext", False), ("default", True), ("all", True), ("nodefault", True), ("minext", True)]
+# properties about optional integrations are also decided with those features on and `std` off (a cfg predicate that ties an
+# integration to `std` changes nothing in the other configurations)
+PROP_EXTRA_CONFIGS = {"C17": [("optnostd", False)], "C11": [("optnostd", False)]}
 
 
 class Ctx:
@@ -157,6 +160,7 @@ def run_property(prop, level, fn, argv, explanation, rule_text, trusted_base, as
         seed = 0
     t0 = time.time()
     ctx = Ctx(tier, seed)
+    ctx.configs = ctx.configs + PROP_EXTRA_CONFIGS.get(prop, [])
     rep = Report(prop)
     ctx.prefetch()
     if ctx.build_errors:
